@@ -642,3 +642,18 @@ for _lo, _hi, _st in [(lo, hi, st) for lo in (-2, 0, 3, 7, 11) for hi in (-4, 0,
 T("symbolic_math.simplify_math_iterators",
   "print(sum([a for a in range(11, 0, -3)]))\n", "print(sum(2 * a + 1 for a in range(3, -4, -1)))\n",
   "print(sum([1 for a in range(7, 7, -4)]), sum(1 for a in range(9, 0, -3)))\n")
+
+# loops over literal iterables that yield nothing although the object is truthy (missed seed C02-b: is_blocking)
+for _it in ("enumerate(())", "reversed([])", "zip(('a', 'b'), range(0))", "zip((), range(2))", "()", "range(0)", "''",
+            "enumerate('a')", "reversed([1])"):
+    for _rule in ("fixes.delete_unreachable_code", "fixes.remove_redundant_else", "fixes.swap_if_else"):
+        T(_rule,
+          f"def f():\n    for x in {_it}:\n        return 'in loop'\n    print('after the loop')\n    return 'default'\nprint(f())\n",
+          f"def g(c):\n    if c:\n        for x in {_it}:\n            raise ValueError(x)\n    else:\n        return 'else'\n    return 'after'\nprint(g(0), g(1) if not list({_it}) else 'raises')\n")
+
+# and/or in a TRUTH context (if/while tests): operands with effects must survive (F02-83 after repair e3d6231, which
+# stopped the rewrites in value contexts only)
+for _rule in ("symbolic_math.simplify_boolean_expressions", "symbolic_math.simplify_boolean_expressions_symmath"):
+    T(_rule,
+      "def t(v):\n    print('t', v)\n    return v\nif t(1) and t(0) and t(1) and not t(1):\n    print('yes')\nif t(0) or t(0):\n    print('y2')\nprint('end')\n",
+      "def t(v):\n    print('t', v)\n    return v\nx = 3\nif x > 1 and (t(1) or x > 1):\n    print(1)\nwhile t(0) or t(0):\n    pass\nprint('end')\n")
